@@ -291,3 +291,25 @@ Definition file_samples (f : segfile) : list wsmp := flat_map o_smps f.(f_parts)
 
 Definition one_video (c : cfg) : bool :=
   Nat.eqb (length (filter tc_video c.(c_tracks))) 1.
+
+(* ---- the bounds formatFMP4Segment.write / formatFMP4Part.write enforce on a part ----
+   size: the payload sizes add up to at most maxPartSize;
+   duration (upper): the part was not yet partDuration long when its last sample was added, i.e. without that sample
+     its duration() is below partDuration (a part of one sample has no such bound: an over-long sample is kept);
+   duration (lower): a part that is followed by another part of the same segment was closed because its duration()
+     had reached partDuration. *)
+Definition short (c : cfg) (l : list wsmp) : bool :=
+  match l with
+  | [] | [_] => true
+  | _ => span (removelast l) <? c.(c_part_dur)
+  end.
+Definition part_ok (c : cfg) (l : list wsmp) : bool := (size_of l <=? c.(c_max_part)) && short c l.
+Fixpoint parts_bounded (c : cfg) (prev : option (list wsmp)) (l : list sop) : bool :=
+  match l with
+  | [] => true
+  | SPart _ p :: r =>
+      part_ok c p.(o_smps)
+      && match prev with Some q => c.(c_part_dur) <=? span q | None => true end
+      && parts_bounded c (Some p.(o_smps)) r
+  | _ :: r => parts_bounded c None r
+  end.
